@@ -28,6 +28,8 @@ def _run_case(kind, d):
         return ec.run_unpack_pack(None, d['dtype'], d['rows'])
     if kind == 'popcount':
         return ec.run_popcount(tuple(d['shape']), d['bits'], d.get('signed', False))
+    if kind == 'popcount_big':
+        return ec.run_popcount_big(tuple(d['shape']), d['seed'], d.get('signed', False))
     if kind == 'tables':
         r = ec.table_oracle()
         return [], (r[2] if r else None)
@@ -35,7 +37,7 @@ def _run_case(kind, d):
 
 
 COMPONENT = {'strings': 'logic.interpret/mvarray/mv_str/bparray', 'mv_bp': 'logic.mv_to_bp/bp_to_mv', 'bp_mv': 'logic.bp_to_mv/mv_to_bp',
-             'pack': 'logic.unpackbits/packbits', 'unpack_pack': 'logic.packbits/unpackbits', 'popcount': 'kyupy.popcount',
+             'pack': 'logic.unpackbits/packbits', 'unpack_pack': 'logic.packbits/unpackbits', 'popcount': 'kyupy.popcount', 'popcount_big': 'kyupy.popcount',
              'tables': 'logic constants / interpret / mv_str'}
 
 
@@ -83,6 +85,8 @@ def gen_inputs(ck, rng):
         shape = shape[-3:]
         bits = ec.nested(rng, tuple(shape) + (8,), lambda: rng.randrange(2))
         out.append(('popcount', {'shape': list(shape), 'bits': bits, 'signed': rng.random() < 0.4}))
+    for shape in [(65536,), (65537,), (100000,), (400, 250), (3, 70000), (1 << 17,), ((1 << 17) + 1,), (2, 3, 40000)][:4 + 4 * min(n, 1)]:
+        out.append(('popcount_big', {'shape': list(shape), 'seed': rng.randrange(1 << 30), 'signed': rng.random() < 0.3}))
     return out
 
 
